@@ -58,6 +58,15 @@ class Scaler(Transformer):
         if not isinstance(X, (xr.DataArray, xr.Dataset)):
             raise TypeError(f"{name} must be an xarray DataArray or Dataset")
 
+    def _verify_feature_dims(self, X) -> None:
+        """Data lacking a feature dimension must not be broadcast against the scaling parameters."""
+        missing_dims = set(self.weights_.dims) - set(X.dims)
+        if missing_dims:
+            raise ValueError(
+                f"Cannot transform data. Dimensions {missing_dims} of the fitted data "
+                "are missing."
+            )
+
     def _process_weights(self, X: DataVarBound, weights) -> DataVarBound:
         if weights is None:
             wghts: DataVarBound = feature_ones_like(X, self.feature_dims)
@@ -144,6 +153,7 @@ class Scaler(Transformer):
 
         """
         self._verify_input(X, "X")
+        self._verify_feature_dims(X)
 
         params = self.get_params()
 
